@@ -232,6 +232,44 @@ def run(ctx):
             ok2 = '_sub_operation' in rd
             ctx.ob('C12.d', f'{cco.qual}.{mn}:sub', ok2, '' if ok2 else f'{mn} ignores the wrapped operation', cco.mod.rel, fn.lineno)
 
+    # sibling agreement: the key-rewriting protocol methods of one class rewrite the same children
+    REWRITERS = ['_with_measurement_key_mapping_', '_with_key_path_', '_with_key_path_prefix_', '_with_rescoped_keys_']
+    for kc in sorted(repo.classes.values(), key=lambda c_: c_.qual):
+        if '.testing.' in kc.qual or '.contrib.' in kc.qual or kc.qual == 'cirq.value.measurement_key.MeasurementKey':
+            continue
+        own = [m_ for m_ in REWRITERS if m_ in kc.methods]
+        if len(own) < 2:
+            continue
+        if repo.is_subclass(kc, repo.cls('cirq.ops.raw_types.Gate')):
+            continue               # gates own a key, they do not wrap children
+        from ..flow import name_deps
+
+        def applied(fn_, pf_):
+            # fields of self that flow into an argument of the protocol function of the same name (copying a child through does not rewrite it)
+            def src(n_):
+                if isinstance(n_, ast.Attribute) and isinstance(n_.value, ast.Name) and n_.value.id == 'self':
+                    return {F.norm_field(repo, kc, n_.attr)}
+                return None
+            dep = name_deps(fn_, {}, source_of=src)
+            out_ = set()
+            for c_ in ast.walk(fn_):
+                if isinstance(c_, ast.Call) and call_name(c_) == pf_:
+                    for a_ in list(c_.args) + [k_.value for k_ in c_.keywords]:
+                        for x_ in ast.walk(a_):
+                            if isinstance(x_, ast.Name):
+                                out_ |= dep.get(x_.id, set())
+                            out_ |= src(x_) or set()
+            return {f for f in out_ if f.startswith('_')}
+        reads = {m_: applied(kc.methods[m_], proto[m_]) for m_ in own}
+        if not any(reads.values()):
+            continue               # leaf classes rewrite their own key, not children
+        union = set().union(*reads.values())
+        for m_ in own:
+            miss = sorted(union - reads[m_])
+            ctx.ob('C12.d', f'{kc.qual}.{m_}:same-children-as-siblings', not miss,
+                   '' if not miss else f'{m_} never looks at {miss}, which the sibling key-rewriting methods of {kc.name} do rewrite: keys inside that child keep their old scope/name',
+                   kc.mod.rel, kc.methods[m_].lineno)
+
     # ------------------------------------------------------------------ C12.g
     cond = repo.cls('cirq.value.condition.Condition')
     shared.rebuild_rule(ctx, 'C12.g', only_methods={'replace_key', '_with_key_path_', '_with_key_path_prefix_', '_with_rescoped_keys_',
